@@ -2,7 +2,8 @@
    Statements over the concrete VM model (Model/VM.v); proofs in Proofs/VMProofs.v.
    The model itself is tied to vm/interpreter.rs, vm/state.rs and vm/for_loop.rs by running the
    REAL finalized chunks of generated templates and template sets on it (Corr/CorrVM.v). *)
-From TeraV Require Import Model.Value Model.Instr Model.VFormat Model.VM Proofs.VMProofs.
+From TeraV Require Import Model.Value Model.Instr Model.VFormat Model.VM Model.World0 Spec.Stmt Model.Compile
+  Proofs.VMProofs Proofs.CompileProofs.
 Local Open Scope nat_scope.
 
 (* Names resolve innermost loop first, then assignments, then the includer's scopes (only when
@@ -57,4 +58,192 @@ Print Assumptions C03_loop_counters.
 Example C03_ex_counters :
   let f := advance_n 2 (new_loop [(None, VInt U64 7); (None, VInt U64 8); (None, VInt U64 9)] false) 5 in
   (lf_index0 f, lf_first f, lf_last f, snd (lf_current f)) = (1, false, false, VInt U64 8).
+Proof. vm_compute. reflexivity. Qed.
+
+
+(* ================= compiled control flow = the reference interpreter ================= *)
+
+(* MAIN THEOREM (compile_correct).  Spec/Stmt.v is a big-step, fuel-free interpreter of statement
+   trees written from the documentation; Model/Compile.v is the port of compile_node/compile_expr
+   (back-patched jump targets); Model/VM.v is the port of interpret().  For every template
+   library (statement trees of ANY nesting: if/elif/else, for [key,] value with else over arrays,
+   strings and maps, break/continue under any ifs in nested loops, set/set_global, set blocks and
+   filter sections with filters, includes -- in captures, in loops), every context and global
+   context, every world whose kwargs keys are strings and whose filters do not inspect the VM
+   state, and every non-failing appending writer: rendering the compiled library on the VM gives
+   exactly the text of the reference interpreter, or both fail; any fuel >= n is enough.
+   This contains for_loop_refinement, break_continue_innermost, if_first_truthy_branch (with
+   C03_if_first_truthy_branch below) and capture exactness of DESIGN §6.
+   Hypotheses on the trees (lib_wf = what the parser guarantees, Compile.wf_stmt): break/continue
+   only in a loop and not across a capture, loop.* only inside a for, non-empty loop variable
+   names, user variables not named __tera_context/__tera_loop_*, includes name templates listed
+   later in the library (acyclic include graph, C11). *)
+Theorem C03_compile_correct :
+  forall (W : Type) (wr : W -> str -> option W) (wapp : W -> str -> W),
+    (forall w t, wr w t = Some (wapp w t)) ->
+    (forall w a b, wapp (wapp w a) b = wapp w (a ++ b)) ->
+    (forall w, wapp w [] = w) ->
+  forall wd : world,
+    (forall k, w_as_key wd (VStr k false) = Some (KStr k true)) ->
+    (forall n v k sc sc', w_filter wd n v k sc = w_filter wd n v k sc') ->
+  forall (lib : list tdef) (name : str) (t : tdef) (cx glob : ctx) (w : W),
+    world_has wd lib -> lib_wf lib -> find_t lib name = Some t ->
+    match render (builtins_of_world wd) None lib name cx glob with
+    | ROk text => exists n s', forall k,
+        render_to W wr wd (n + k) (compile_tdef t) None cx glob w = RDone s' (SinkTop (wapp w text))
+    | RErr _ => exists n e, forall k,
+        render_to W wr wd (n + k) (compile_tdef t) None cx glob w = RFail e
+    end.
+Proof. exact compile_correct. Qed.
+
+(* the instance the correspondence runs: string writer, the world of Model/World0.v whose template
+   table is the compiled library *)
+Theorem C03_compile_correct_world0 :
+  forall (lib : list tdef) (name : str) (t : tdef) (cx glob : ctx) (w : str),
+    NoDup (map td_name lib) -> lib_wf lib -> find_t lib name = Some t ->
+    let wd := world0 (map (fun t => (td_name t, compile_tdef t)) lib) in
+    match render (builtins_of_world wd) None lib name cx glob with
+    | ROk text => exists n s', forall k,
+        render_to str wr_str wd (n + k) (compile_tdef t) None cx glob w = RDone s' (SinkTop (w ++ text))
+    | RErr _ => exists n e, forall k,
+        render_to str wr_str wd (n + k) (compile_tdef t) None cx glob w = RFail e
+    end.
+Proof. exact compile_correct_world0. Qed.
+
+(* statement level, inside any chunk at any position: the "code at pc" invariant.  list_ok says:
+   from pc, in any state, the compiled statements reach pc+length (normal end), the Iterate of
+   the innermost enclosing loop (continue) or that loop's end (break) -- never another loop's --
+   with the loops/assignments of the reference outcome and its text appended to the current
+   sink (innermost capture buffer, else the output); or fail when the reference fails. *)
+Theorem C03_body_correct :
+  forall (W : Type) (wr : W -> str -> option W) (wapp : W -> str -> W),
+    (forall w t, wr w t = Some (wapp w t)) ->
+    (forall w a b, wapp (wapp w a) b = wapp w (a ++ b)) ->
+    (forall w, wapp w [] = w) ->
+  forall wd : world,
+    (forall k, w_as_key wd (VStr k false) = Some (KStr k true)) ->
+    (forall n v k sc sc', w_filter wd n v k sc = w_filter wd n v k sc') ->
+  forall tpl ae depth ch inc okn,
+    inc_sim W wr wapp wd ae depth inc okn ->
+    forall body, list_ok W wr wapp wd tpl ae depth ch inc okn body.
+Proof. exact body_correct. Qed.
+
+(* if / elif* / else renders exactly the first branch whose condition is truthy (reference
+   interpreter; C03_compile_correct carries it to the compiled code) *)
+Theorem C03_if_first_truthy_branch : forall B ae inc branches els en,
+  exec_list B ae inc (if_chain branches els) en
+  = match first_truthy B branches els en with
+    | ROk body => exec_list B ae inc body en
+    | RErr x => RErr x
+    end.
+Proof. exact if_first_truthy_branch. Qed.
+
+(* capture exactness.  PARTIAL: stated for compiled statement lists (every body a set block or
+   filter section can have), not for arbitrary instruction segments between Capture and
+   EndCapture: the captured string (run with a fresh buffer on the capture stack) is exactly the
+   text the same code appends to the enclosing sink when run without it, includes included. *)
+Theorem C03_capture_is_exact_partial :
+  forall (W : Type) (wr : W -> str -> option W) (wapp : W -> str -> W),
+    (forall w t, wr w t = Some (wapp w t)) ->
+    (forall w a b, wapp (wapp w a) b = wapp w (a ++ b)) ->
+    (forall w, wapp w [] = w) ->
+  forall wd : world,
+    (forall k, w_as_key wd (VStr k false) = Some (KStr k true)) ->
+    (forall n v k sc sc', w_filter wd n v k sc = w_filter wd n v k sc') ->
+  forall tpl ae depth ch inc okn,
+    inc_sim W wr wapp wd ae depth inc okn ->
+  forall body lex pc b stk l sv c o,
+    forallb (wf_stmt okn lex false) body = true -> pre lex None b l ->
+    code_at ch pc (compile_seq compile_node pc None body) ->
+    match exec_list (builtins_of_world wd) (aesc tpl ae) inc body (absE b l sv) with
+    | ROk (en1, text, SigNormal) =>
+        let pe := pc + length (compile_seq compile_node pc None body) in
+        (exists l' sv', en1 = absE b l' sv' /\
+           steps W wr wd tpl ae depth ch pc (mk b stk l sv ([] :: c)) o pe (mk b stk l' sv' (text :: c)) o) /\
+        (exists l' sv', en1 = absE b l' sv' /\
+           steps W wr wd tpl ae depth ch pc (mk b stk l sv c) o pe
+                 (mk b stk l' sv' (out_caps c text)) (out_sink W wapp c o text))
+    | _ => True
+    end.
+Proof. exact capture_is_exact_compiled. Qed.
+
+(* Include, for EVERY chunk, included chunk and outcome: the include's own final state is dropped;
+   the includer goes on from its own unchanged state, only the text reaches its current sink *)
+Theorem C03_include_state_is_fresh :
+  forall (W : Type) (wr : W -> str -> option W) (wd : world) f tpl ae depth ch pc s (o : sink W) name t2,
+    nth_error ch pc = Some (Include name) -> assoc_get (w_templates wd) name = Some t2 ->
+    run W wr wd (S f) tpl ae depth ch pc s o
+    = match caps s with
+      | [] => match run W wr wd f t2 ae depth (t_chunk t2) 0 (inc_state (scope_of s) (context s)) o with
+              | RDone _ o1 => run W wr wd f tpl ae depth ch (S pc) s o1
+              | RFail e => RFail e
+              | ROutOfFuel => ROutOfFuel
+              end
+      | c :: ct => match run W wr wd f t2 ae depth (t_chunk t2) 0 (inc_state (scope_of s) (context s)) (SinkBuf c) with
+                   | RDone _ (SinkBuf c1) => run W wr wd f tpl ae depth ch (S pc) (upd_caps s (c1 :: ct)) o
+                   | RDone _ (SinkTop _) => RFail ErrPanic
+                   | RFail e => RFail e
+                   | ROutOfFuel => ROutOfFuel
+                   end
+      end.
+Proof. exact include_state_is_fresh. Qed.
+
+(* a render is a function of (templates, context, global context) only: it starts from the fresh
+   state, in which a name resolves to the context, then the global context, else Undefined *)
+Theorem C03_nothing_survives_render :
+  forall (W : Type) (wr : W -> str -> option W) (wd : world) fuel tpl cx glob (w : W),
+    render_to W wr wd fuel tpl None cx glob w
+    = run W wr wd fuel tpl None 0 (t_root_chunk tpl) 0 (fresh_state cx glob) (SinkTop w)
+    /\ forall n, get_value (fresh_state cx glob) n
+                 = match ctx_get cx n with
+                   | Some v => v
+                   | None => match ctx_get glob n with Some v => v | None => VUndef end
+                   end.
+Proof. exact nothing_survives_render. Qed.
+
+Print Assumptions C03_compile_correct.
+Print Assumptions C03_compile_correct_world0.
+Print Assumptions C03_body_correct.
+Print Assumptions C03_if_first_truthy_branch.
+Print Assumptions C03_capture_is_exact_partial.
+Print Assumptions C03_include_state_is_fresh.
+Print Assumptions C03_nothing_survives_render.
+
+(* non-vacuity: {% for x in a %}{% if x == 2 %}{% continue %}{% endif %}{% if x == 4 %}{% break %}{% endif %}
+   {{ loop.index }}:{% include "i" %};{% else %}e{% endfor %}{{ x | default(value="n") }}
+   with "i" = {{ x }}{% set x = 9 %}: continue and break act on the loop, the include sees the loop
+   variable, its assignment does not reach the includer, the loop variable is gone after the loop *)
+Definition ex_inc : tdef :=
+  {| td_name := [105]%N; td_autoescape := false;
+     td_body := [SPrint (EVar [120]%N); SAssign false [120]%N (EConst (VInt U64 9))] |}.
+Definition ex_main : tdef :=
+  {| td_name := [116]%N; td_autoescape := false;
+     td_body :=
+       [SFor None [120]%N (EVar [97]%N)
+          [SIf (EEq (EVar [120]%N) (EConst (VInt U64 2))) [SContinue] [];
+           SIf (EEq (EVar [120]%N) (EConst (VInt U64 4))) [SBreak] [];
+           SPrint (ELoop LIndex); SText [58]%N; SInclude [105]%N; SText [59]%N]
+          [SText [101]%N];
+        SPrint (EFilter (EVar [120]%N) [100;101;102;97;117;108;116]%N
+                  [([118;97;108;117;101]%N, EConst (VStr [110]%N false))])] |}.
+Definition ex_lib := [ex_main; ex_inc].
+Definition ex_ctx : ctx :=
+  [([97]%N, VArr [VInt U64 1; VInt U64 2; VInt U64 3; VInt U64 4; VInt U64 5])].
+Definition ex_world := world0 (map (fun t => (td_name t, compile_tdef t)) ex_lib).
+
+Example C03_ex_lib_wf : lib_wf ex_lib /\ NoDup (map td_name ex_lib) /\ find_t ex_lib [116]%N = Some ex_main.
+Proof.
+  split; [vm_compute; repeat split|]. split; [|reflexivity].
+  repeat constructor; cbn; intuition discriminate.
+Qed.
+
+Example C03_ex_reference :
+  render (builtins_of_world ex_world) None ex_lib [116]%N ex_ctx [] = ROk [49;58;49;59;51;58;51;59;110]%N.
+Proof. vm_compute. reflexivity. Qed.
+
+Example C03_ex_vm :
+  match render_to str wr_str ex_world 400 (compile_tdef ex_main) None ex_ctx [] [] with
+  | RDone _ (SinkTop out) => out
+  | _ => []
+  end = [49;58;49;59;51;58;51;59;110]%N.
 Proof. vm_compute. reflexivity. Qed.
